@@ -17,7 +17,7 @@ RULE = (
     "non-trivial = forces non-zero / basis vector mapped"
 )
 ASSUMPTIONS = ["finite alphabets; <=3 surfaces, nx<=3, ny<=7", "OpenMDAO/NumPy/SciPy/mphys trusted"]
-BOUND = {"quick": "<=3 surfaces, all permutations, 3 symmetry patterns (full, half, mixed); ladder d in {10,1e2,1e4,1e6} chords", "thorough": "adds sizes, flows"}
+BOUND = {"quick": "<=3 surfaces, all permutations, 3 symmetry patterns (full, half, mixed), small lattices exhaustively + production-size lattices (5x11 / 4x7 / 6x9) for the permutation, wrapper and multiplexer parts; ladder d in {10,1e2,1e4,1e6} chords", "thorough": "adds sizes, flows"}
 TOL = 1e-9
 
 SPECS_FULL = [
@@ -74,7 +74,21 @@ def states(tier, seed):
     for symset, n in itertools.product([False, True], [1, 2, 3]):
         for which in ("demux", "mux"):
             st.append(dict(part="mux", sym=symset, n=n, which=which, fam=fam))
+    # the same parts on production-size lattices (5x11 / 4x7 / 6x9 full, 5x6 / 4x4 / 6x5 half): every permutation of three
+    # surfaces, the wrappers, the (de)multiplexers
+    for symset in (False, True, "mixed"):
+        for perm in itertools.permutations(range(3)):
+            st.append(dict(part="perm", sym=symset, n=3, perm=list(perm), alpha=5.0, beta=0.0 if symset else 4.0, visc=True, big=True, fam=fam))
+    for symset, comp in itertools.product([False, True], [False, True]):
+        st.append(dict(part="wrap", sym=symset, n=3, comp=comp, alpha=5.0, beta=0.0, big=True, fam=fam))
+        for which in ("demux", "mux"):
+            if comp:
+                st.append(dict(part="mux", sym=symset, n=3, which=which, big=True, fam=fam))
     return st, 0
+
+# production-size lattices, every chordwise and spanwise count different (block offsets beyond the small shapes)
+BIG = {False: [(5, 11), (4, 7), (6, 9)], True: [(5, 6), (4, 4), (6, 5)]}
+_BIG = [False]
 
 
 def mk_surfs(sym, n, fam, visc=False):
@@ -84,13 +98,19 @@ def mk_surfs(sym, n, fam, visc=False):
         if mixed:
             sym = k % 2 == 1
         sp = (SPECS_SYM if sym else SPECS_FULL)[k]
+        if _BIG[0]:
+            sp = dict(sp, nx=BIG[bool(sym)][k][0], ny=BIG[bool(sym)][k][1])
         m = gen.make_mesh(sp["pf"], sp["nx"], sp["ny"], "left" if sym else "full", fam, asym=not sym, span=sp["span"], chord=sp["chord"], offset=sp["off"])
         out.append(builders.aero_surface("s%d" % k, m, sym, with_viscous=visc, CD0=0.01 * (k + 1), CL0=0.02 * k))
     return out
 
 
 def run_state(s):
-    return globals()["part_" + s["part"]](s)
+    _BIG[0] = bool(s.get("big"))
+    try:
+        return globals()["part_" + s["part"]](s)
+    finally:
+        _BIG[0] = False
 
 
 def mac_of(p, name, sym):
